@@ -6,6 +6,7 @@ import NutsModel.C08.Spec
 import NutsModel.Facts.C08
 import NutsProofs.Lemmas.C08Tree
 import NutsProofs.Lemmas.C08Data
+import NutsProofs.Lemmas.C08Inv
 
 namespace Nuts.C08.Props
 open Nuts.C08
@@ -130,6 +131,134 @@ theorem iblt_tree_is_fold (n ls : Nat) (hls : 0 < ls) (l : List (IKey × Nat)) (
 example : let t := [((1 : BitVec 256), 0), (2, 5), (4, 3)].foldl (fun t rc => t.insert xorOps rc.1 rc.2) (Tree.new xorOps 2)
     t.treeSize = 8 ∧ (t.zeroTo xorOps 1).1 = 1 ∧ (t.zeroTo xorOps 3).1 = 5 ∧ (t.zeroTo xorOps 4).1 = 7 ∧ t.rootData xorOps = 7 := by
   decide
+
+/-! ### the state layer -/
+
+/-- the model instantiated with what the source says today -/
+def cfg : Cfg := { pageSize := Facts.C08.pageSize, loadEmptyResets := Facts.C08.loadEmptyResets }
+abbrev NB : Nat := Facts.C08.ibltNumBuckets
+
+theorem cfg_good : Good cfg := ⟨by decide, by decide, by decide⟩
+
+/-- the states the node can be in: start from the empty store; `Add` calls with ANY transaction, payload and outcome of
+    the commit (concurrent calls are serialised by the write lock, in any order); process stop + restart at any point -/
+inductive Reachable : State NB → Prop
+  | init : Reachable (State.init cfg)
+  | add {s} (tx : Tx) (opt : AddOpts) : Reachable s → Reachable (add cfg s tx opt).1
+  | restart {s} : Reachable s → Reachable (restart cfg s)
+
+theorem reachable_inv {s : State NB} (r : Reachable s) : SInv cfg s := by
+  induction r with
+  | init => exact SInv.init cfg
+  | add tx opt _ ih => exact (ih.add cfg_good tx opt).1
+  | restart _ ih => exact ih.restart cfg_good
+
+/-- what is observable of a state: XOR and IBLT for a requested clock, count, highest clock (memory and disk), head -/
+structure Observables (s : State NB) (S : List Tx) : Prop where
+  xor : ∀ req, xorAt s req = (specUpTo xorOps cfg.pageSize (refClocks S) req, specClock cfg.pageSize S req)
+  iblt : ∀ req, ibltAt s req = (specUpTo (ibltOps NB) cfg.pageSize (keyClocks S) req, specClock cfg.pageSize S req)
+  count : s.disk.count = S.length
+  lcMem : s.mem.lcHigh = maxClock S
+  lcDisk : s.disk.lcHigh = maxClock S
+  head : (S = [] ∧ s.disk.head = none) ∨ (∃ t ∈ S, s.disk.head = some t.ref ∧ t.clock = maxClock S)
+
+theorem observables_of_sinv {s : State NB} (h : SInv cfg s) : Observables s s.disk.txs := by
+  have hM : ∀ t ∈ s.disk.txs, t.clock ≤ maxClock s.disk.txs := fun t ht => le_maxClock ht
+  refine ⟨fun req => ?_, fun req => ?_, h.g.count, by rw [h.lc, h.g.lc], h.g.lc, h.g.head⟩
+  · have := digest_at xor_lawful cfg_good.pos h.x
+      (by intro e; have : s.disk.txs = [] := by simpa [refClocks] using e
+          rw [this]; rfl)
+      (by intro rc hrc; simp only [refClocks, List.mem_map] at hrc; obtain ⟨t, ht, rfl⟩ := hrc; exact hM t ht) req
+    unfold xorAt specClock
+    rw [h.lc, h.g.lc]
+    exact this
+  · have := digest_at (iblt_lawful NB) cfg_good.pos h.i
+      (by intro e; have : s.disk.txs = [] := by simpa [keyClocks] using e
+          rw [this]; rfl)
+      (by intro rc hrc; simp only [keyClocks, List.mem_map] at hrc; obtain ⟨t, ht, rfl⟩ := hrc; exact hM t ht) req
+    unfold ibltAt specClock
+    rw [h.lc, h.g.lc]
+    exact this
+
+/-- **Refinement (digests, counters, head).** In every reachable state, for EVERY requested clock, `XOR(c)` and `IBLT(c)`
+    (digest and clock) are the plain folds over the set of stored transactions, the count is its size, the highest
+    clock (atomic copy and disk) is its maximum, and the head is a stored transaction with the highest clock. -/
+theorem state_refines_spec {s : State NB} (r : Reachable s) : Observables s s.disk.txs :=
+  observables_of_sinv (reachable_inv r)
+
+/-- the stored set only ever grows by exactly the transaction an `Add` call reported as stored -/
+theorem stored_set_changes_only_on_success {s : State NB} (r : Reachable s) (tx : Tx) (opt : AddOpts) :
+    ((add cfg s tx opt).2 ≠ .ok () → (add cfg s tx opt).1.disk = s.disk) ∧
+    ((add cfg s tx opt).2 = .ok () →
+      ((add cfg s tx opt).1 = s ∧ s.disk.isPresent tx.ref = true) ∨
+      ((add cfg s tx opt).1.disk.txs = s.disk.txs ++ [tx] ∧ s.disk.isPresent tx.ref = false)) :=
+  ((reachable_inv r).add cfg_good tx opt).2
+
+/-- **Rejected writes are no-ops.** An `Add` that reports an error — missing prev, wrong clock, second root, payload
+    mismatch, commit failure — leaves the disk untouched and every observable (for every requested clock) as it was,
+    although the rollback hook rebuilt the in-memory trees. -/
+theorem add_rejected_noop {s : State NB} (r : Reachable s) (tx : Tx) (opt : AddOpts)
+    (herr : (add cfg s tx opt).2 ≠ .ok ()) :
+    (add cfg s tx opt).1.disk = s.disk ∧ Observables (add cfg s tx opt).1 s.disk.txs := by
+  have a := (reachable_inv r).add cfg_good tx opt
+  have hd := a.2.1 herr
+  have o := observables_of_sinv a.1
+  rw [hd] at o
+  exact ⟨hd, o⟩
+
+/-- **Rollback restores.** Whenever the write transaction of an `Add` fails at commit — wherever in the history,
+    including the very first write — the disk is untouched and all observables are those of the stored set. -/
+theorem rollback_restores {s : State NB} (r : Reachable s) (tx : Tx) (opt : AddOpts) (hf : opt.commitFails = true) :
+    (add cfg s tx opt).1.disk = s.disk ∧ Observables (add cfg s tx opt).1 s.disk.txs := by
+  have a := (reachable_inv r).add cfg_good tx opt
+  have hd : (add cfg s tx opt).1.disk = s.disk := by
+    by_cases hok : (add cfg s tx opt).2 = .ok ()
+    · rcases a.2.2 hok with ⟨e, _⟩ | ⟨_, hp⟩
+      · rw [e]
+      · -- a commit failure is never reported as success
+        exfalso
+        revert hok
+        unfold Nuts.C08.add
+        simp only [hp, Bool.false_eq_true, if_false]
+        cases s.disk.verifyPrevs tx with
+        | err e => simp
+        | panic e => simp
+        | ok u =>
+          simp only []
+          by_cases hpay : (opt.payload == some false) = true
+          · simp [hpay]
+          · simp only [hpay, Bool.false_eq_true, if_false]
+            cases s.disk.graphAdd tx with
+            | err e => simp
+            | panic e => simp
+            | ok d => simp [hf]
+    · exact a.2.1 hok
+  have o := observables_of_sinv a.1
+  rw [hd] at o
+  exact ⟨hd, o⟩
+
+/-- **Restart equivalence.** Stopping the process and starting it on the same file (new trees loaded from the persisted
+    leaves) gives the same observables. The proof needs page contiguity, which is derived (`clocks_downward_closed`). -/
+theorem restart_equiv {s : State NB} (r : Reachable s) :
+    (restart cfg s).disk = s.disk ∧ Observables (restart cfg s) s.disk.txs ∧ Observables s s.disk.txs :=
+  ⟨rfl, observables_of_sinv ((reachable_inv r).restart cfg_good), observables_of_sinv (reachable_inv r)⟩
+
+/-- clocks of stored transactions are downward closed — a consequence of the prev verifier (clock = 1 + highest prev
+    clock, prevs present); it is what makes the pages contiguous and `Load` correct -/
+theorem clocks_downward_closed {s : State NB} (r : Reachable s) :
+    ∀ t ∈ s.disk.txs, t.clock ≠ 0 → ∃ t' ∈ s.disk.txs, t'.clock + 1 = t.clock :=
+  (reachable_inv r).g.closed
+
+/-- non-vacuity: concrete calls on the real configuration — an admitted root, a rejected child (its prev is missing),
+    a commit failure on the very first write, and an admitted child -/
+def exRoot : Tx := { ref := 7, clock := 0, prevs := [] }
+def exChild : Tx := { ref := 9, clock := 1, prevs := [7] }
+example : (add cfg (State.init cfg : State NB) exRoot {}).2 = .ok () := by decide
+example : (add cfg (State.init cfg : State NB) exChild {}).2 = .err "missing-prev" := by decide
+example : (add cfg (State.init cfg : State NB) exRoot { commitFails := true }).2 = .err "commit-failed" := by decide
+example : (add cfg (add cfg (State.init cfg : State NB) exRoot {}).1 exChild {}).2 = .ok () := by decide
+example : Reachable (restart cfg (add cfg (add cfg (State.init cfg) exRoot {}).1 exChild { commitFails := true }).1) :=
+  .restart (.add _ _ (.add _ _ .init))
 
 /-! ### the `uint32` bound -/
 
